@@ -58,6 +58,7 @@ ber_decode_primitive(const asn_codec_ctx_t *opt_codec_ctx,
 		ASN__DECODE_FAILED;
 	}
 
+	FREEMEM(st->buf);	/* Decoding over a previous value */
 	st->buf = (uint8_t *)MALLOC(length + 1);
 	if(!st->buf) {
 		st->size = 0;
